@@ -727,9 +727,11 @@ def recover_after_kill(w, scn, rec, env):
             msgs.append("after the retried commit the ingested bytes of %d logical path(s) cannot be read back: %r" % (len(bad), bad[:4]))
         # the retried commit installs THE new version: the object is the one the uninterrupted commit gives (inventories
         # as parsed JSON modulo `created` and the dedup choice, content by hash, no extra or missing entry)
+        # (not for an interrupted `upgrade`: its retry is a plain `commit`, which rightly gives another object when the
+        #  kill came before the upgrade had staged the new inventory type)
         cls, det = classify(w, scn, rec, env)
         d["class_after_retry"] = cls
-        if cls != "new" and not msgs:
+        if cls != "new" and not msgs and not scn.is_upgrade:
             msgs.append("the commit retried after the kill succeeded but the object is not the one of the uninterrupted commit: %s, differences %r"
                         % (cls, det.get("diff_to_new")))
     else:
